@@ -112,6 +112,13 @@ func (c13) RunCase(c *core.Ctx) {
 	if c.Case%25 == 3 && !c13Errors(c) {
 		return
 	}
+	if c.Case%100 == 7 {
+		c.Eval(6)
+		if problem := dByteSlice(); problem != "" {
+			c.Violation("modes-disagree-on-issues|byte-slice", map[string]any{"schema": "{payload: Slice(CustomFunc[byte](< 200)).Min(2)} for a []byte field", "observed": problem})
+			return
+		}
+	}
 	o := gen.DefaultOpts()
 	o.CatchPct = 30
 	o.ModChains = c.R.Intn(3) == 0
